@@ -160,6 +160,16 @@ static void run_cfg(bool flow, uint32_t isn, const std::string* rp = 0, std::str
                 IP pkt = IP("10.0.0.1", "10.0.0.2") / tcp;
                 auto bytes = pkt.serialize();
                 IP parsed(&bytes[0], (uint32_t)bytes.size());
+                for (int i = 0; i < N; ++i) {
+                    TCPIP::AckTracker c = s.t;                       // pre-state
+                    (void)c.is_segment_acked(isn + (uint32_t)(i * SEG), (uint32_t)SEG);
+                    c.process_packet(parsed);
+                    bool want = true;
+                    for (int p = i * SEG; p < (i + 1) * SEG; ++p) if (!(p < s.m.mack || (s.m.sacked >> p & 1))) { want = false; break; }
+                    if (c.is_segment_acked(isn + (uint32_t)(i * SEG), (uint32_t)SEG) != want)
+                        return "ack:tracker:repeated-query-stale|is_segment_acked(segment " + str(i) + ") asked before and after the packet with nothing in between answers " + str(!want) + ", model " + str(want);
+                    R.count("repeated_queries");
+                }
                 s.t.process_packet(parsed);
             }
             return check(isn, s.t, s.m, "tracker");
